@@ -11,6 +11,25 @@ CHECKS = {
     ),
 }
 
+CHECKS["C12"] = dict(
+    technique="Coq proof (invariants by induction over the history of presented individuals) over a hand-written Gallina model of both progress trackers and the search loops + differential correspondence + contract evaluated on implementation outputs",
+    text="11 theorems (Props/C12.v, closed under the global context): for every history of fitness values (rationals; ties, plateaus, late improvements), both directions, single- and multi-objective trackers, either evaluator and any batching: the reported best is an evaluated individual and nobody whose fitness was computed is strictly better; is_best flags are exactly 'first or strictly better than all earlier' (single) / 'at least the best so far' (multi); every front member attains the best aggregate. Tied to /repo by exhaustive small histories (all sequences of length <= 4 over 3 values, both directions) plus random histories and whole searches (RS, 1+1, HC, GP) compared with the model inside Coq on every run.",
+    note="Trusted: Coq kernel + vm_compute; hand-written model Model/Search.v; Python harness. Fitness floats abstracted to exact rationals; NaN/inf outside the model. Individuals evaluated inside a step via evaluator.evaluate and then dropped never reach the tracker (known finding F20, DESIGN section 6): theorems speak about individuals presented to the tracker.",
+    design="4 (C12)",
+)
+CHECKS["C13"] = dict(
+    technique="Coq proof (reachability invariant by induction over evaluator calls; permutation argument for the parallel evaluator) over a hand-written Gallina model + differential correspondence with the real Sequential/ParallelEvaluator + contract evaluated on implementation outputs",
+    text="10 theorems (Props/C13.v, closed under the global context): for every evaluator state reachable by any sequence of calls of either evaluator on any batches (duplicates, already-evaluated individuals, several problems sharing individuals): cached fitness = Problem.evaluate(ff(program)); counter = number of fitness invocations; at most one invocation per (individual, problem); parallel = sequential on caches and counter for every scheduling order; aggregate formulas. Tied to /repo by ~170 generated call sequences per run on the real evaluators (incl. real pathos pools) with a file-backed invocation log, compared inside Coq.",
+    note="Trusted: Coq kernel + vm_compute; hand-written model; harness. PARTIAL for scheduling: worker completion order is an arbitrary permutation in the model and pathos ProcessingPool.map is trusted to return results in argument order (exercised with real pools, not proved). Floats abstracted to rationals.",
+    design="4 (C13)",
+)
+CHECKS["C14"] = dict(
+    technique="Coq proof (induction on fuel / on the list of generations with a freshness invariant) over a hand-written Gallina model of budgets and the four search loops + differential correspondence of budget-check traces + contract evaluated on implementation outputs",
+    text="10 theorems (Props/C14.v, closed under the global context): RS and (1+1) terminate with exactly n evaluations and n+1 checks; HC terminates with n <= total < n+m; GP under progress terminates with n <= total < n+P for every sequence of populations the step may produce; every loop with every budget (evaluation, target, disjunction) stops at the first check answering done; without progress GP never terminates (refuted boundary, known finding F23). Tied to /repo by event traces (counter at each is_done call, returned individual) of all four algorithms under generated budgets.",
+    note="Trusted: Coq kernel + vm_compute; hand-written model; harness. The GP step is an oracle (observed populations are fed to the model loop; the theorem quantifies over all behaviours with progress). TimeBudget outside the model. Known finding F23 listed in known_findings.json.",
+    design="4 (C14)",
+)
+
 ALL = [f"C{n:02d}" for n in range(1, 21)]
 
 m = {
